@@ -9,4 +9,6 @@ import PGV.Props.C03
 #print axioms PGV.Props.C03.C03_required_flat
 #print axioms PGV.Props.C03.C03_zero_skip_flat_builtin
 #print axioms PGV.Props.C03.C03_zero_skip_flat_custom
+#print axioms PGV.Props.C03.C03_optional_empty_silent_flat
+#print axioms PGV.Props.C03.C03_optional_empty_silent_struct
 #print axioms PGV.Props.C03.C03_missing_entry
